@@ -30,6 +30,9 @@ CONFIGS = {
           ["compio_driver", "compio_buf", "compio_log"], "polling-only driver"),
     "D": (["--workspace", "--features", "compio/polling,compio-driver/sync"], "all",
           "fusion + cross-thread SharedFd (sync primitives)"),
+    "E": (["--workspace", "--features", "compio/all,compio/polling"], "all",
+          "everything: fusion (io_uring + polling) plus every optional feature (io-compat, codecs, fs-dir, "
+          "native-tls, rustls, quic/h3, ws, process, time ...)"),
 }
 
 MEMBERS = [
@@ -148,6 +151,11 @@ def ensure(cfg, force=False):
             if head.get("nonce") != nonce:
                 raise ExtractError("stale fact file " + p)
             produced[head["name"]] = os.path.basename(p)
+        # fail closed: every body must be the pre-transform MIR (never the stolen fallback)
+        stolen = subprocess.run("grep -l '\"stolen\":true' %s/*.jsonl" % tmp, shell=True, stdout=subprocess.PIPE, text=True).stdout.split()
+        if stolen:
+            shutil.rmtree(tmp, ignore_errors=True)
+            raise ExtractError("mir_promoted was stolen for some bodies in %s (extraction is not faithful)" % stolen)
         want = MEMBERS if expect == "all" else expect
         missing = [m for m in want if m not in produced]
         if missing:
